@@ -130,6 +130,8 @@ def write_inputs(rng, fmt, work):
 def write_transform(rng, work, sim_ok, ext):
     R = gen.rot_of_class(rng, ["uniform", "axis_aligned", "quarter_turns", "small"][rng.integers(4)])
     t = rng.normal(size=3) * ext * 10.0**rng.uniform(-1, 1)
+    if rng.random() < .25:
+        t = np.zeros(3)  # a pure rotation (/ scaling) about the origin
     s = 10.0**rng.uniform(-0.5, 0.5) if (sim_ok and rng.random() < .5) else 1.0
     if sim_ok and s != 1.0 and rng.random() < .3:
         s = 1.0 + (1 if rng.random() < .5 else -1) * 10.0**rng.uniform(-8, -3)
@@ -370,6 +372,17 @@ def traj_cli(run, case, rng, work):
     fmt = case.get("fmt") or ["tum", "tum", "kitti", "euroc"][rng.integers(4)]
     trajs, ref, meta = write_inputs(rng, fmt, work)
     argv_o, o = draw_options(rng, fmt, trajs, ref, meta, work, force=case.get("force"))
+    if fmt == "kitti" and not (o["align"] or o["correct_scale"]) and (rng.random() < .4 or case.get("unequal")):
+        # pose files of different lengths (a run that ended early, a reference covering only the
+        # start): legal as long as nothing pairs the poses up
+        victims = list(trajs.values()) + ([ref] if ref is not None else [])
+        for (pth, sh) in victims:
+            if rng.random() < .5 and sh.n > 3:
+                m = int(rng.integers(2, sh.n))
+                lines = open(pth).read().splitlines(True)
+                open(pth, "w").write("".join(lines[:m]))
+                sh.reduce(list(range(m)))
+        run.hit("kitti files of different lengths")
     export = case.get("export") or (["tum", "kitti", "both"][rng.integers(3)] if fmt != "kitti" else
                                     ["kitti", "kitti", "tum"][rng.integers(3)])
     if meta["unsorted"]:
